@@ -208,7 +208,16 @@ impl Prop for C07Prop {
         ]
     }
     fn extra_evidence(&self) -> Option<J> {
-        Some(static_scan())
+        let mut j = static_scan();
+        // summaries written by the real-rayon engines during this check (checks/C07.sh runs them first)
+        for (key, file) in [("engine_c_native_rayon", "/verif/target/c07-native.json"), ("engine_b_miri", "/verif/target/c07-miri.json")] {
+            if let Ok(s) = std::fs::read_to_string(file) {
+                if let Ok(x) = J::parse(&s) {
+                    j.put(key, x);
+                }
+            }
+        }
+        Some(j)
     }
 }
 
